@@ -238,6 +238,33 @@ Definition lock_name (cache_id : str) (x y z : Z) : str :=
 Definition lock_filename (lock_dir cache_id : str) (x y z : Z) : str :=
   posix_join lock_dir [lock_name cache_id x y z].
 
+(* ------------------------------------------------------------------ util/fs.py: ensure_directory, write_atomic *)
+(* A directory is the list of its names, innermost first ([] is '/'); absolute, normalised paths only (what
+   FileCache / FileLock pass once cache_dir / lock_dir are absolute).  Single process: the EEXIST branch of a
+   concurrent mkdir is not modelled. *)
+Inductive fsop :=
+| Mkdir (d : list str)
+| Chmod (d : list str).
+Definition fsop_dir (o : fsop) : list str := match o with Mkdir d => d | Chmod d => d end.
+
+Section EnsureDir.
+  Variable isdir : list str -> bool.   (* os.path.isdir when ensure_directory is entered *)
+  Variable perm : bool.                (* directory_permissions is configured *)
+
+  (* ensure_directory(file_name) with d = dirname(file_name): if not isdir(d): ('/' -> return);
+     ensure_directory(d) [i.e. the same for dirname(d)]; mkdir(d); if directory_permissions: chmod(d) *)
+  Fixpoint ensure_dir_ops (d : list str) : list fsop :=
+    match d with
+    | [] => []
+    | c :: parent =>
+      if isdir (c :: parent) then []
+      else ensure_dir_ops parent ++ Mkdir (c :: parent) :: (if perm then [Chmod (c :: parent)] else [])
+    end.
+End EnsureDir.
+
+(* write_atomic: path_tmp = filename + '.tmp-' + str(random.randint(0, 99999999)) *)
+Definition tmp_suffix (r : Z) : str := [46; 116; 109; 112; 45] ++ dec_str r.     (* '.tmp-' *)
+
 (* ------------------------------------------------------------------ multiapp *)
 Fixpoint lstrip47 (s : str) : str :=
   match s with
